@@ -199,6 +199,12 @@ def gen_stack_case(rng):
         timedep = rng.random() < 0.7
         parts.append({"k": k, "polys": gen_polys(rng, k, d, rng.choice([1, 2]), timedep, rng.choice([2, 3])),
                       "lift_by": rng.choice([None, 0, 1, 2, 3])})      # None: the residual itself, not lifted
+    if rng.random() < 0.6:
+        # an unlifted low-order part next to a lifted higher-order one: the stack must hand it ONLY its own prefix
+        parts[0]["lift_by"] = None
+        parts[1]["lift_by"] = rng.choice([1, 2, 3])
+        if parts[1]["k"] + parts[1]["lift_by"] <= parts[0]["k"]:
+            parts[1]["lift_by"] += parts[0]["k"]
     K = max(p["k"] + (p["lift_by"] or 0) for p in parts)
     n = K + rng.choice([0, 0, 1])
     return {"kind": "stack", "d": d, "parts": parts, "coords": [[qpt(rng) for _ in range(d)] for _ in range(n)], "t": qpt(rng, -4, 4)}
